@@ -44,6 +44,8 @@ let handle = function
       | 'q' -> VCharstr (bytes_of_hex a)
       | 'w' -> VWord (bytes_of_hex a)
       | 'r' -> VRest (bytes_of_hex a)
+      | 'x' -> (match b16_display (bytes_of_hex a) with Ok t -> VRest t | _ -> failwith "b16")
+      | 'y' -> (match b64_display (bytes_of_hex a) with Ok t -> VRest t | _ -> failwith "b64")
       | 'l' -> VCharstrs (if a = "" then [] else List.map bytes_of_hex (String.split_on_char ',' a))
       | _ -> failwith "bad field" in
     let vs = List.map fld fs in
